@@ -59,9 +59,13 @@ def _attempts(fn, n, k):
     return int(round(x)) + 1          # python round on Fraction = numpy round (half to even)
 
 
+CALLS = {'randmio_und': 2, 'randmio_und_connected': 3, 'randmio_dir': 2, 'randmio_dir_connected': 2, 'latmio_und': 3, 'latmio_und_connected': 3,
+         'latmio_dir': 2, 'latmio_dir_connected': 2, 'randomize_graph_partial_und': 2}
+
+
 def _draws(fn, n, k, m, slack):
-    per = 3 if fn in UND else 2
-    return m * _attempts(fn, n, k) * per + slack + (1 if fn.startswith('latmio') else 0)
+    """budget in RandomState calls: every attempt the routine can make (bounded by its own max_attempts) plus one re-draw per attempt"""
+    return m * _attempts(fn, n, k) * (CALLS[fn] + 1) + slack + (1 if fn.startswith('latmio') else 0)
 
 
 def _perms(n, seed, count):
@@ -91,7 +95,7 @@ def cases(tier, seed):
             if 'connected' in fn and not connected_und(S): continue
             add(fn=fn, kind='randmio', n=4, sup=s, support=S, iters=m, weight=3 ** m * len(U4[s]), slack=0,
                 shard_depth=(8 if m >= 2 and len(U4[s]) >= 3 else None))
-        add(fn=fn, kind='randmio', n=4, sup='P4', support=und_from_edges(4, U4['P4']), iters=0, draws=4, name=fn + '/P4/zero-budget')
+        add(fn=fn, kind='randmio', n=4, sup='P4', support=und_from_edges(4, U4['P4']), iters=0, draws=2, name=fn + '/P4/zero-budget')
     for fn in ('randmio_dir', 'randmio_dir_connected'):
         plan = [('2arcs', 1), ('2arcs', 2), ('3arcs_fan', 1), ('3arcs_fan', 2), ('3arcs_chain', 1), ('recip2', 1), ('ring4', 1), ('3arcs_in', 1), ('sc5', 1), ('sc5b', 1)] if q else \
                [(s, m) for s in D4 for m in (1, 2)] + [('2arcs', 3), ('3arcs_fan', 3)]
@@ -115,7 +119,7 @@ def cases(tier, seed):
             if 'connected' in fn and not connected_und(S): continue
             if q and s == 'P4' and fn == 'latmio_und': continue
             for t, p in enumerate(_perms(4, seed, np_ if s == '2K2' else (2 if q else 8))):
-                extra = dict(draws=1 + 3 * 4, fork_int=True, shard_depth=24) if (q and len(U4[s]) >= 3) else dict(shard_depth=10 if len(U4[s]) >= 3 else None, fork_int=len(U4[s]) >= 3)
+                extra = dict(draws=1 + 4 * 4, fork_int=True, shard_depth=24) if (q and len(U4[s]) >= 3) else dict(shard_depth=10 if len(U4[s]) >= 3 else None, fork_int=len(U4[s]) >= 3)
                 add(fn=fn, kind='latmio', n=4, sup=s, support=S, iters=1, weight=40 * len(U4[s]), perm=p, name='%s/%s/perm%s' % (fn, s, ''.join(map(str, p))), **extra)
     for fn in ('latmio_dir', 'latmio_dir_connected'):
         for s in (['2arcs', 'ring4'] if q else ['2arcs', '3arcs_fan', 'ring4', 'recip2']):
@@ -126,12 +130,12 @@ def cases(tier, seed):
                     add(fn=fn, kind='latmio', n=4, sup=s, support=S, iters=0, draws=2, perm=[1, 3, 0, 2], name=fn + '/ring4/zero-budget')
                 continue
             for t, p in enumerate(_perms(4, seed, np_ if s == '2arcs' else (2 if q else 8)) if not (q and s == 'ring4') else [[0, 2, 1, 3], [1, 3, 0, 2]]):
-                extra = dict(draws=1 + 2 * 6, fork_int=True, shard_depth=10) if (q and len(D4[s]) >= 3) else dict(shard_depth=10 if len(D4[s]) >= 3 else None, fork_int=len(D4[s]) >= 3)
+                extra = dict(draws=1 + 3 * 6, fork_int=True, shard_depth=10) if (q and len(D4[s]) >= 3) else dict(shard_depth=10 if len(D4[s]) >= 3 else None, fork_int=len(D4[s]) >= 3)
                 add(fn=fn, kind='latmio', n=4, sup=s, support=S, iters=1, weight=40 * len(D4[s]), perm=p, name='%s/%s/perm%s' % (fn, s, ''.join(map(str, p))), **extra)
     # ---- partial randomisation with a mask
     for s, ms in ([('2K2', 0), ('2K2', 1), ('2K2', 2), ('P4', 0), ('P4', 1)] if q else [(s, ms) for s in ('2K2', 'P4', 'C4', 'paw') for ms in (0, 1, 2)]):
         S = und_from_edges(4, U4[s])
-        add(fn='randomize_graph_partial_und', kind='partial', n=4, sup=s, support=S, iters=ms, draws=3 * ms + 3, weight=5 * 4 ** ms,
+        add(fn='randomize_graph_partial_und', kind='partial', n=4, sup=s, support=S, iters=ms, draws=3 * ms + 2, weight=5 * 4 ** ms,
             shard_depth=8 if ms >= 2 else None)
     # ---- randomizer_bin_und: every labelled graph on 4 nodes, and a seeded sample of 5-node graphs
     for S in all_supports_und(4):
